@@ -114,8 +114,11 @@ def coq_prepare() -> None:
 
 def coq_make(targets: Sequence[str], timeout: int = 3000, jobs: int = 8) -> Tuple[bool, str]:
     """Full .vo build of the given targets (paths relative to coq/, e.g. theories/Props/C19.vo)."""
-    coq_prepare()
-    rc, out = sh(['make', '-j%d' % jobs, '-k'] + list(targets), cwd=COQ, timeout=timeout)
+    import fcntl
+    with open(COQ / '.build.lock', 'w') as lk:
+        fcntl.flock(lk, fcntl.LOCK_EX)
+        coq_prepare()
+        rc, out = sh(['make', '-j%d' % jobs, '-k'] + list(targets), cwd=COQ, timeout=timeout)
     return rc == 0, out
 
 
@@ -306,13 +309,16 @@ class ImplCrash(RuntimeError):
 
 # --------------------------------------------------------------------------- known findings
 def load_known_findings(prop: str) -> Tuple[List[dict], List[dict]]:
-    f = VERIF / 'KNOWN_FINDINGS.json'
+    """known_findings/<prop>.json: {"known": [{id, what, match, replay?}], "fixed": [{commit, what}]}.
+    (KNOWN_FINDINGS.json at the top is the merged copy written by tools/gen_manifest.py.)
+    Never written at run time."""
+    f = VERIF / 'known_findings' / (prop + '.json')
     if not f.exists():
         return [], []
     data = json.loads(f.read_text())
-    known = [e for e in data.get('known', []) if e['property'] == prop]
-    fixed = [e for e in data.get('fixed', []) if e['property'] == prop]
-    return known, fixed
+    for e in data.get('known', []):
+        e.setdefault('property', prop)
+    return data.get('known', []), data.get('fixed', [])
 
 
 # --------------------------------------------------------------------------- the check driver
@@ -399,7 +405,8 @@ def run_check(cls: type, tier: str, seed: int) -> int:
 
     # 1. regenerate Gen/*.v from /repo (fail closed)
     if chk.needs_gen:
-        rc, out = sh([PY, str(VERIF / 'harness' / 'gen_tables.py')], env=impl_env(), timeout=600)
+        rc, out = sh([PY, str(VERIF / 'harness' / 'gen_tables.py')] + list(getattr(chk, 'gen_modules', [])),
+                     env=impl_env(), timeout=600)
         cmds.append('harness/gen_tables.py')
         if rc != 0:
             broken.append(Violation('translator', 'gen_tables.py could not translate /repo (fail-closed): '
